@@ -18,7 +18,22 @@ pub struct Server {
 }
 
 impl Server {
+    /// What a client may offer in its `initialize` request.  The server never announces a
+    /// `positionEncoding`, so whatever is offered, positions stay in UTF-16 units.
+    pub fn client_capabilities(variant: u64) -> J {
+        match variant % 4 {
+            0 => json!({}),
+            1 => json!({"general": {"positionEncodings": ["utf-16"]}}),
+            2 => json!({"general": {"positionEncodings": ["utf-8", "utf-16"]}}),
+            _ => json!({"general": {"positionEncodings": ["utf-32", "utf-8"]}, "textDocument": {"semanticTokens": {"requests": {"full": true}, "tokenTypes": ["comment", "string"], "tokenModifiers": [], "formats": ["relative"]}}}),
+        }
+    }
+
     pub fn start(bin: &str) -> Option<Server> {
+        Self::start_with(bin, 0)
+    }
+
+    pub fn start_with(bin: &str, variant: u64) -> Option<Server> {
         let mut child = Command::new(bin).env("RUST_BACKTRACE", "0").stdin(Stdio::piped()).stdout(Stdio::piped()).stderr(Stdio::null()).spawn().ok()?;
         let stdin = child.stdin.take()?;
         let stdout = child.stdout.take()?;
@@ -52,8 +67,14 @@ impl Server {
             }
         });
         let mut s = Server { child, stdin, rx, next_id: 1, backlog: vec![] };
-        let id = s.request("initialize", json!({"processId": null, "rootUri": null, "capabilities": {}}));
-        s.wait(|m| m["id"] == json!(id))?;
+        let id = s.request("initialize", json!({"processId": null, "rootUri": null, "capabilities": Self::client_capabilities(variant)}));
+        let reply = s.wait(|m| m["id"] == json!(id))?;
+        // a server that negotiated another encoding would have to say so here; then UTF-16 columns would not be owed
+        if let Some(enc) = reply["result"]["capabilities"]["positionEncoding"].as_str() {
+            if enc != "utf-16" {
+                return Self::start_with(bin, 0);
+            }
+        }
         s.notify("initialized", json!({}));
         Some(s)
     }
@@ -206,8 +227,11 @@ pub fn replay_rows(tlc_out: &str, bin: &str, rep: &mut Report) {
         rep.count("rows");
         rep.ctx = Some(json!({"sub": "lsp-replay", "row": payload}));
         n += 1;
+        if n % 150 == 0 {
+            server = None;          // a fresh server, greeted by the next kind of client
+        }
         if server.is_none() {
-            server = Server::start(bin);
+            server = Server::start_with(bin, n / 150);
         }
         let Some(srv) = server.as_mut() else {
             rep.violation("C20", "server_does_not_start", json!({}), json!({}));
@@ -277,13 +301,13 @@ pub fn record(seed: u64, n: usize, bin: &str, out: &str, rep: &mut Report) {
     use rand::{Rng, SeedableRng};
     let mut rng = StdRng::seed_from_u64(seed);
     let mut f = std::io::BufWriter::new(std::fs::File::create(out).expect("create trace"));
-    let mut server = Server::start(bin);
+    let mut server = Server::start_with(bin, seed);
     let uris = ["file:///a.bas", "file:///b.bas", "file:///c%20d.bas"];
     let mut open: std::collections::HashMap<&str, String> = Default::default();
     writeln!(f, "{}", json!({"k": "reset", "uri": "", "text": [], "diags": [], "toks": [], "err": false})).unwrap();
     for _ in 0..n {
         if server.is_none() {
-            server = Server::start(bin);
+            server = Server::start_with(bin, seed + rng.gen_range(0..4));
             open.clear();
             writeln!(f, "{}", json!({"k": "reset", "uri": "", "text": [], "diags": [], "toks": [], "err": false})).unwrap();
         }
